@@ -48,6 +48,30 @@ CHECKS["C10"] = dict(engine="E3-pyxlift+E1-llsym", cat="other", design="DESIGN.m
     technique="CrossHair (z3) over to_bytes/write_thrift/write_list lifted from cencoding.pyx with bounds obligations (lengths symbolic) + LLVM-IR/z3 check of the varint/zigzag kernels; witnesses confirmed under ASan",
     text="Size safety: for every combination of string/bytes lengths (0..8 MB) in a FileMetaData / Statistics structure, each unchecked memcpy of the serialiser stays inside the buffer chosen by the sizing heuristic and no checked write is dropped - or the solver returns lengths that are replayed on an ASan build. Integers: ULEB128/zigzag encode and decode agree with the specification over the full 64-bit range.",
     note="Reduced claim so far: capacity (T4) and integer codec (T1). Structure round trip / IDL conformance (T2/T3) are added by vf.props.thrift_struct when present. The lift is tied to the compiled code by the quoted-line drift guard and by replay.")
+CHECKS["C01"] = dict(engine=E2, cat="other", design="DESIGN.md §4 C01",
+    technique="CrossHair (z3) over the real iter_dataframe / write_column / make_definitions / skip_definition_bytes with shims; z3 bit-vector and LIA lemmas lifted from function ASTs; LLVM-IR/z3 decode of writer-shaped level streams",
+    text="Reduced claim: the framing arithmetic on which the round trip depends - row-group and page tiling, level-block length agreement between writer and the reader's skip for every row count < 2^31, null-mask decode for the writer's shapes, dictionary-index header vs reader fast path, range-index regeneration - each decided for all values within its bound.",
+    note="Value conversion through numpy/pandas, codecs, dtype restoration and block-manager aliasing are not encodable and are outside the claim (stated in DESIGN.md); the three interaction failures named in the property live there.")
+CHECKS["C02"] = dict(engine=E2, cat="other", design="DESIGN.md §4 C02",
+    technique="CrossHair (z3) symbolic execution of the real write_column / write_simple / write_multi over symbolic lengths with a linear-arithmetic oracle on the write log; witnesses replayed by writing a real file and validating it structurally",
+    text="Chunk/page/file bookkeeping: for every row count, page split, null layout and every level/value/compressed/header length the recorded offsets, sizes and counts describe exactly the bytes written (pages tile the chunk; sums match), for a lattice of page version x categorical x codec x nullability x page count; file framing and summary layout likewise.",
+    note="Reduced claim: bookkeeping and framing; the bytes inside segments (values, codec output, thrift) and decoding by an independent reader are outside. Collaborators that end in C are contract shims listed in the evidence; write_column carries one declared AST rewrite.")
+CHECKS["C04"] = dict(engine=E2, cat="other", design="DESIGN.md §4 C04",
+    technique="CrossHair (z3) over the statistics section of the real write_column with a categorical shim implementing the pandas ordering contract; replay through ParquetFile.statistics",
+    text="Categorical min/max over symbolic category order and presence must equal the smallest/largest present value; null_count equals the per-page tally for every null layout; plain columns pass min/max through.",
+    note="Reduced claim: fastparquet-side logic only; pandas min/max semantics (NaN, unsigned, tz, unicode) and decoding in api.statistics are outside.")
+CHECKS["C07"] = dict(engine=E2, cat="other", design="DESIGN.md §4 C07",
+    technique="CrossHair (z3) over the real write_simple append branch and write_row_groups/write_multi on symbolic files / filesystem",
+    text="Append positions and order: every write of a single-file append starts at or after the old footer, row groups = old ++ new, the file ends with the new frame; a multi-file append opens no existing data file for writing, uses fresh part names, writes parts before the summary and references old ++ new in order.",
+    note="Reduced claim: positions/order/names. Categorical relabelling on read and schema checks are pandas/numpy glue outside. Assumes the re-serialised footer does not shrink on append.")
+CHECKS["C18"] = dict(engine=E2, cat="other", design="DESIGN.md §4 C18",
+    technique="CrossHair (z3) over the real write paths with a rejection injected at a symbolic (row group, byte) position; replay on real files",
+    text="If a late rejection occurs at any row-group position after any number of bytes, the call raises and the pre-existing bytes are untouched (or restored).",
+    note="Reduced claim: failure position; which inputs trigger rejections is concrete pandas behaviour outside.")
+CHECKS["C19"] = dict(engine=E2, cat="other", design="DESIGN.md §4 C19",
+    technique="CrossHair (z3) over the real multi-file append path on a symbolic filesystem with the failing call index symbolic; replay with fault-injecting open_with/mkdirs on real files",
+    text="For every index k of a failing filesystem call before the metadata phase the append raises and no pre-existing file was opened for writing; fault-free, parts precede the summary and names are fresh; a normal return implies the fault was not reached.",
+    note="Each feasible k is one path (stated in the evidence). Crash semantics of OS buffers are outside.")
 NA = {
     "C17": "dtype/categorical/index prediction vs what pandas allocates: no symbolic model of pandas' allocation is within reach and prediction and allocation share one function; row counts are decided under C06",
     "C20": "quantifies over CPython thread schedules of code running in pandas/numpy/C extensions; CrossHair executes one thread and no engine here gives a semantics for interleaved bytecode; a hand-written interleaving model would not be the real code",
